@@ -2,6 +2,7 @@ package main
 
 import (
 	"fmt"
+	"os"
 	"strings"
 	"time"
 	"verifsim/gen"
@@ -342,7 +343,14 @@ func c18FreshSolo(pp *pProp, pw *parserWorld, reqs []*parsersim.Request, owner [
 	var idx []at
 	var solo []*parsersim.Request
 	for i, o := range outs {
-		if i%c18SoloEvery != 0 || o.Status != "ok" || len(o.Resp.Digests) == 0 {
+		every := c18SoloEvery
+		if os.Getenv("VERIF_C18_NOSOLO") != "" {
+			every = 1 << 30
+		}
+		if pp.race {
+			every *= 3 // (a process of the race build takes several times longer to start)
+		}
+		if i%every != 0 || o.Status != "ok" || len(o.Resp.Digests) == 0 {
 			continue
 		}
 		for ci := range reqs[i].Clients {
